@@ -2,7 +2,7 @@
    (Order-independence of the rendered result and "each effect once" are additionally checked on the
    implementation by re-rendering with permuted control attributes and by call counters.) *)
 From Coq Require Import Sorting.Sorted.
-From Tpl Require Import Html.Exec Proofs.ExecSpec Proofs.SortProps Proofs.FragmentProps Proofs.FactsAgree.
+From Tpl Require Import Html.Exec Proofs.ExecSpec Proofs.SortProps Proofs.FragmentProps Proofs.FactsAgree Proofs.OrderIrrelevant.
 Open Scope N_scope.
 
 (* Tag.SortedAttr is a permutation, sorted by the documented key, and STABLE: attributes with the same
@@ -24,7 +24,33 @@ Proof. exact SortProps.with_before_cond_before_range. Qed.
 (* the weights are the ones in html/tag.go NOW (Gen/Facts.v is regenerated on every run) *)
 Theorem weights_from_source : forall n, weight n = facts_weight n.
 Proof. exact FactsAgree.weight_agrees. Qed.
+
+(* "independent of the order in which the attributes are written": two written orders of the same attributes in which
+   attributes of equal sort key (plain attributes among themselves; content directives and dynamic attributes among
+   themselves) keep their relative order are sorted to the SAME list ... *)
+Theorem sorted_order_irrelevant : forall mgr l l',
+  no_plain_directive_name mgr l -> Permutation l l' ->
+  (forall k, filter (fun a => Z.eqb (sort_key mgr a) k) l = filter (fun a => Z.eqb (sort_key mgr a) k) l') ->
+  sorted_attrs (m_attr_prefix mgr) l = sorted_attrs (m_attr_prefix mgr) l'.
+Proof. exact OrderIrrelevant.sorted_attrs_order_irrelevant. Qed.
+(* ... and the render of a tree does not change when any number of its elements (and of their siblings, which
+   else-chains and range separators inspect) are rewritten that way: output, result, name table and call log are equal,
+   for every fuel, mask, scope, writer budget and nesting position. *)
+Theorem render_order_irrelevant : forall is_space to_lower is_letter is_udigit methods call_fn mgr
+    fuel mask ctx ctx' n n' sc top t st,
+  Forall2 (reorder_eq mgr) ctx ctx' -> reorder_eq mgr n n' ->
+  exec_node is_space to_lower is_letter is_udigit methods call_fn mgr fuel mask ctx n sc top t st =
+  exec_node is_space to_lower is_letter is_udigit methods call_fn mgr fuel mask ctx' n' sc top t st.
+Proof. exact OrderIrrelevant.exec_node_order_irrelevant. Qed.
+Theorem execute_order_irrelevant : forall is_space to_lower is_letter is_udigit methods call_fn mgr fuel tp tp' data t st,
+  Forall2 (reorder_eq mgr) (tp_children tp) (tp_children tp') -> Forall2 (reorder_eq mgr) (tp_ctx tp) (tp_ctx tp') ->
+  execute is_space to_lower is_letter is_udigit methods call_fn mgr fuel tp data t st =
+  execute is_space to_lower is_letter is_udigit methods call_fn mgr fuel tp' data t st.
+Proof. exact OrderIrrelevant.execute_order_irrelevant. Qed.
 Print Assumptions sorted_perm.
+Print Assumptions sorted_order_irrelevant.
+Print Assumptions render_order_irrelevant.
+Print Assumptions execute_order_irrelevant.
 Print Assumptions sorted_by_key.
 Print Assumptions sorted_stable.
 Print Assumptions documented_order.
